@@ -166,7 +166,7 @@ def rv_defuse(i):
             uses += rv_regs_in(o)
         return [], uses, 'cbranch'
     if mn in ('jal', 'c.jal'):
-        d = rv_regs_in(ops[0]) if len(ops) == 2 else ['x1']
+        d = rv_regs_in(ops[0]) if ops else ['x1']
         return d, [], 'call' if d else 'jump'
     if mn == 'c.j':
         return [], [], 'jump'
@@ -181,7 +181,7 @@ def rv_defuse(i):
         return [], u, 'ret' if u == ['x1'] else 'ijump'
     if mn == 'c.jalr':
         return ['x1'], rv_regs_in(ops[0]), 'icall'
-    if mn in RV_STORES or re.match(r'^vs(e|se|uxei|oxei|\d+r)', mn) or mn.startswith('vsm.'):
+    if mn in RV_STORES or re.match(r'^vs(e\d|se\d|uxei|oxei|\d+r)', mn) or mn.startswith('vsm.'):
         uses = []
         for o in ops:
             uses += rv_regs_in(o)
@@ -196,7 +196,7 @@ def rv_defuse(i):
         uses += defs
     if mn.startswith('v') and ops and ops[-1].strip() == 'v0.t':
         uses += defs                                   # masked-off elements keep the old value
-    return defs, uses, 'load' if mn in RV_LOADS or re.match(r'^vl(e|se|uxei|oxei|\d+r)', mn) else 'alu'
+    return defs, uses, 'load' if mn in RV_LOADS or re.match(r'^vl(e\d|se\d|uxei|oxei|\d+r)', mn) else 'alu'
 
 
 # ---------------------------------------------------------------------------------------------------------------- program
@@ -333,8 +333,8 @@ class Prog:
 
 # ---------------------------------------------------------------------------------------------------------------- value-preservation executor
 class Frame:
-    """straight-line execution that follows direct calls and unconditional jumps: each register holds ('init', r), ('sp', delta), ('mem', symbol, offset),
-    ('addr', symbol, offset) or ('other', where); the stack is a map from byte offset (relative to the entry stack pointer) to a value"""
+    """straight-line execution that follows direct calls and unconditional jumps: each register holds ('init', r), ('sp', delta), ('mem', address in the text),
+    ('addr', address in the text) or ('other', where); the stack is a map from byte offset (relative to the entry stack pointer) to a value"""
 
     def __init__(self, prog, holes=None):
         self.p = prog
@@ -345,6 +345,7 @@ class Frame:
         self.trace = []
         self.holes = holes or {}        # address -> set of registers an inserted code sequence may write
         self.written = set()
+        self.opaque = 0
 
     def get(self, r):
         return self.reg.get(r, ('init', r))
@@ -419,11 +420,11 @@ class Frame:
                 if pre or post is not None:
                     self.put(base, where)
                 return
-        if mn == 'ldr' and len(ops) == 1 and i.tsym:
-            self.put(a64_reg(ops[0]), ('mem', i.tsym, i.target - self.p.obj.symbols.get(i.tsym, i.target)) if ops[0][0] == 'x' else where)
+        if mn == 'ldr' and len(ops) == 1 and i.target is not None:
+            self.put(a64_reg(ops[0]), ('mem', i.target) if ops[0][0] == 'x' else where)
             return
-        if mn == 'adr' and i.tsym:
-            self.put(a64_reg(ops[0]), ('addr', i.tsym, 0))
+        if mn == 'adr' and i.target is not None and not i.reloc:
+            self.put(a64_reg(ops[0]), ('addr', i.target))
             return
         if i.kind == 'store':
             # a store through a pointer into the frame overwrites slots
@@ -458,17 +459,30 @@ class Frame:
                 self.put(rd, ('sp', v[1] + k))
                 return
             if v[0] == 'pcrel':
-                self.put(rd, ('addr', v[1], v[2] + 0))
+                self.put(rd, ('addr', v[1]))
                 return
             if v[0] == 'addr':
-                self.put(rd, ('addr', v[1], v[2] + k))
+                self.put(rd, ('addr', v[1] + k))
                 return
             if k == 0:
                 self.put(rd, v)
                 return
         if mn == 'auipc':
-            syms = [s for ty, s in i.reloc if 'PCREL_HI20' in ty or 'GOT_HI20' in ty]
-            self.put(rv_reg(ops[0]), ('pcrel', syms[0], 0) if syms else where)
+            syms = [s for ty, s in i.reloc if 'PCREL_HI20' in ty]
+            if syms:
+                s0, add = (syms[0].split('+') + ['0'])[:2]
+                if s0 in self.p.obj.symbols:
+                    self.put(rv_reg(ops[0]), ('pcrel', self.p.obj.symbols[s0] + int(add, 16)))
+                    return
+                self.put(rv_reg(ops[0]), where)
+                return
+            if i.reloc:
+                self.put(rv_reg(ops[0]), where)
+                return
+            imm = int(ops[1], 0)
+            if imm >= 1 << 19:
+                imm -= 1 << 20
+            self.put(rv_reg(ops[0]), ('addr', i.addr + (imm << 12)))
             return
         if mn == 'c.mv':
             self.put(rv_reg(ops[0]), self.get(rv_reg(ops[1])))
@@ -479,7 +493,7 @@ class Frame:
             if mo and mo[1]:
                 bv = self.get(mo[1])
                 if bv[0] == 'pcrel' and i.reloc:
-                    bv = ('addr', bv[1], bv[2])
+                    bv = ('addr', bv[1])
                     mo = (0, mo[1])
                 if bv[0] == 'sp':
                     a = bv[1] + mo[0]
@@ -492,7 +506,7 @@ class Frame:
                         self.put(r, s[0] if s else where)
                     return
                 if bv[0] == 'addr' and mn.replace('c.', '') in ('ld', 'fld') and r:
-                    self.put(r, ('mem', bv[1], bv[2] + mo[0]))
+                    self.put(r, ('mem', bv[1] + mo[0]))
                     return
         if i.kind == 'store':
             mo = memop(ops[1]) if len(ops) > 1 else None
@@ -520,6 +534,12 @@ class Frame:
                     self.put(r, ('other', a))
             i = self.p.ins.get(a)
             if i is None or i.kind == 'data':
+                if stack:
+                    # the callee continues in code the generator writes: what that code changes is not known; go on after the call (the values of
+                    # registers not written again are then unreliable, which `opaque` tells the caller)
+                    self.opaque += 1
+                    a = stack.pop()
+                    continue
                 return a, 'leave'
             self.trace.append(a)
             if i.kind == 'ret':
